@@ -28,6 +28,43 @@ func runC19(c *an.Ctx) {
 	if deser == nil || ser == nil {
 		return
 	}
+	// units with rules of their own below (declared before any query is run)
+	mustFunc(c, ct+".(*Transaction).decodeEip155")
+	mustFunc(c, ct+".TransactionFromRawBytes")
+	mustFunc(c, ct+".(*Transaction).deserializeOntUnsigned")
+	// the format probe reads two bytes and must give them back on every path that goes on decoding
+	if peek := mustFunc(c, ct+".isEip155TxBytes"); peek != nil {
+		nb := mustObj(c, "common.(*ZeroCopySource).NextBytes")
+		bu := mustObj(c, "common.(*ZeroCopySource).BackUp")
+		if nb != nil && bu != nil {
+			reads, backs := an.CallsToReach(peek, nb), callsIn(peek, bu)
+			ok := len(reads) == 1 && len(backs) >= 1
+			why := fmt.Sprintf("%d reads, %d BackUp calls", len(reads), len(backs))
+			if ok {
+				// same amount, and no return after a successful read without backing up
+				for _, b := range backs {
+					if an.AccessPath(argsNoRecv(b.(ssa.CallInstruction).Common())[0]) != an.AccessPath(argsNoRecv(reads[0].Common())[0]) {
+						ok, why = false, "BackUp amount differs from the amount read"
+					}
+				}
+				assume := map[ssa.Value]an.Abs{}
+				for _, e := range an.Extracts(reads[0].Value())[1] {
+					assume[e] = an.AFalse
+				}
+				cut := map[ssa.Instruction]bool{}
+				for _, b := range backs {
+					cut[b] = true
+				}
+				r := (&an.Query{Fn: peek, Start: reads[0], Assume: assume, Cut: cut}).Run()
+				for _, ret := range an.Returns(peek) {
+					if r.Reaches(ret) {
+						ok, why = false, "a return is reachable after a successful read without BackUp: "+c.P.Rel(ret.Pos())
+					}
+				}
+			}
+			c.Check(ok, "pair|isEip155TxBytes|peek-restores-position", "the transaction-format probe gives back the bytes it read, so decoding starts at the transaction's first byte", c.P.Rel(peek.Pos()), why)
+		}
+	}
 	// (1)
 	{
 		bad := ""
